@@ -354,7 +354,35 @@ theorem akaiWalk_complete (words : Array Nat) (c : List Nat) (hc : ARawChain wor
       obtain ⟨hn, hvc, hcd⟩ := hstep hs
       exact ⟨by rw [hn]; exact hvc, hcd⟩
   case case10 =>
-    rename_i st lst sub size v hw curDir hc1 hc2 hc3 st1 next hlt
+    rename_i st lst sub size v hw curDir hc1 hc2 hc3 st1 next hlt hdir ls hadd
+    cases he
+    have hsubc : sub ∉ c := by
+      intro hs
+      obtain ⟨_, h2, _⟩ := member_word words c hmem sub v hs hw
+      simp [curDir, h2] at hdir
+    have hdisj : ∀ x ∈ lst, x ∉ c := fun x hx hxc => hsubc (hinv.foc ⟨x, hx, hxc⟩).1
+    have hlen : ls.length = st.links.length := addLinks_length _ _ _ hadd
+    have hpath : CPath words c (sub :: lst).reverse := by
+      have := cpath_of_rev words c lst sub [] hinv.rev (by simp [CPath])
+      simpa [List.reverse_cons] using this
+    refine ⟨?_, by simp only; rw [hlen]; exact hinv.len⟩
+    intro x hx hd
+    simp only [st1] at hd ⊢
+    apply addLinks_c words c _ st.links ls hpath hadd x hx
+    · intro hl
+      have hm : x ∈ (sub :: lst).reverse := List.mem_of_getLast? hl
+      simp only [List.mem_reverse, List.mem_cons] at hm
+      rcases hm with rfl | hm
+      · exact hsubc hx
+      · exact hdisj x hm hx
+    · rcases dirty_set_cases _ _ _ hd with h | h
+      · subst h; exact absurd hx hsubc
+      · rcases hinv.inst x hx h with h' | h'
+        · exact absurd hx (hdisj x h')
+        · exact Or.inr h'
+  case case11 => cases he
+  case case12 =>
+    rename_i st lst sub size v hw curDir hc1 hc2 hc3 st1 next hlt hndir
     cases he
     have hvne : v ≠ SAT_EOF := by simpa using hc3
     have hsubc : sub ∉ c := by
@@ -442,7 +470,14 @@ theorem akaiWalk_dirty (words : Array Nat) (st : AkaiSt) (lst : List Nat) (sub :
     apply h2
     simp [st1, hlt']
   case case10 =>
-    rename_i st lst sub size v hw curDir hc1 hc2 hc3 st1 next hlt
+    rename_i st lst sub size v hw curDir hc1 hc2 hc3 st1 next hlt hdir ls hadd
+    cases he
+    refine ⟨by simp [st1], fun x h => getElem?_set_true_mono _ _ _ h, ?_⟩
+    intro _ _ hlt
+    simp [st1, hlt]
+  case case11 => cases he
+  case case12 =>
+    rename_i st lst sub size v hw curDir hc1 hc2 hc3 st1 next hlt hndir
     cases he
     refine ⟨by simp [st1], fun x h => getElem?_set_true_mono _ _ _ h, ?_⟩
     intro _ _ hlt
